@@ -447,6 +447,17 @@ func (mp *MultihashPrimary) Sync() error {
 	return mp.file.Sync()
 }
 
+// StopGC stops the garbage collector and waits for a GC cycle that is in
+// progress to end. GC cannot be started again afterwards.
+func (mp *MultihashPrimary) StopGC() {
+	mp.gcMutex.Lock()
+	defer mp.gcMutex.Unlock()
+	if mp.gc != nil {
+		mp.gc.close()
+		mp.gc = nil
+	}
+}
+
 // Close calls Flush to write work and data to the primary file, and then
 // closes the file.
 func (mp *MultihashPrimary) Close() error {
@@ -457,6 +468,7 @@ func (mp *MultihashPrimary) Close() error {
 	}
 	if mp.gc != nil {
 		mp.gc.close()
+		mp.gc = nil
 	}
 	mp.gcMutex.Unlock()
 
